@@ -355,6 +355,7 @@ impl Iterator for Hinted {
 }
 #[derive(Clone)]
 pub struct HintedPairs(Hinted);
+impl HintedPairs { pub fn new(h: Hinted) -> Self { HintedPairs(h) } }
 impl Iterator for HintedPairs {
     type Item = (u64, u64);
     fn next(&mut self) -> Option<(u64, u64)> { let k = self.0.next()?; let v = self.0.next()?; Some((k, v)) }
